@@ -87,7 +87,7 @@ def tup(x):
     if isinstance(x, list):
         return tuple(tup(y) for y in x)
     if isinstance(x, dict):
-        return {k: (tup(v) if k not in ("params", "body", "pre") else [tup(y) for y in v]) for k, v in x.items()}
+        return {k: (tup(v) if k not in ("params", "body", "pre", "post") else [tup(y) for y in v]) for k, v in x.items()}
     return x
 
 
@@ -138,6 +138,7 @@ class FnPrinter:
         self.cur_fn = None
         self.uninit = set(fn.get("uninit") or ())       # locals carrying a shadow init flag (C04)
         self._kids = [[]]
+        self.cond_tops = []      # occurrence ids of the controlling expressions of if / while / for / switch
         self.last_top = None
         self.defs = []          # (variable, kind, occ id of the defining expression | None, declared type / lvalue kind)
         self.vtypes = {}        # variable -> declared type key
@@ -187,6 +188,8 @@ class FnPrinter:
         else:
             self._kids[-1].extend(kids)
         self.last_top = top
+        if ctx == "cond" and top is not None:
+            self.cond_tops.append(top.id)
         return res
 
     def _pe(self, e, ctx="rv"):
@@ -551,12 +554,17 @@ class FnPrinter:
         head = ("static " if static else "") + ctype(fn["ret"], self.lang) + " " + self.nm(fn["name"]) + "("
         pos = len(head)
         for i, prm in enumerate(fn["params"]):
-            t = prm[0] if " " in prm[0] or "*" in prm[0] or "&" in prm[0] or "<" in prm[0] else ctype(prm[0], self.lang)
+            arrsuf = ""
+            ptype = prm[0]
+            if ptype.endswith("]") and "[" in ptype:         # array parameter: "si[]" -> int v[]
+                arrsuf = ptype[ptype.index("["):]
+                ptype = ptype[:ptype.index("[")]
+            t = ptype if " " in ptype or "*" in ptype or "&" in ptype or "<" in ptype else ctype(ptype, self.lang)
             sep = "" if t.endswith(("*", "&")) else " "
             o = self.declname(prm[1], self.vars.get(prm[1], "int"))
             self.vtypes[prm[1]] = ("ref:" + spelled_type_key(prm[0].split("&")[0])) if "&" in prm[0] else prm[0]
             occs.append((pos + len(t) + len(sep), o))
-            ps.append(t + sep + self.nm(prm[1]))
+            ps.append(t + sep + self.nm(prm[1]) + arrsuf)
             pos += len(ps[-1]) + 2
         sig = head + (", ".join(ps) if ps else ("void" if self.lang == "c" else "")) + ")"
         self.emit(0, sig, sig, occs)
@@ -568,7 +576,13 @@ class FnPrinter:
         self.vars = saved_vars
 
     def run(self):
-        for it in self.fn.get("pre") or []:
+        self.items(self.fn.get("pre") or [])
+        self.func(self.fn)
+        self.items(self.fn.get("post") or [])       # file-level items after the function (e.g. a definition after its use)
+        return self
+
+    def items(self, its):
+        for it in its:
             if it[0] == "global":
                 t = ctype(it[1], self.lang)
                 self.vtypes[it[2]] = it[1]
@@ -581,8 +595,6 @@ class FnPrinter:
                     self.scope[0].add(nm_)
             elif it[0] == "func":
                 self.func(it[1], static=True)
-        self.func(self.fn)
-        return self
 
 
 def expr_info(e):
@@ -681,7 +693,7 @@ GCC_FLAGS = ["-O0", "-w", "-fsanitize=address,undefined", "-fsanitize-undefined-
 class FnResult:
     """Everything known about one function of a batch after analysis and execution."""
     __slots__ = ("fn", "index", "occs", "line0", "nlines", "facts", "findings", "nvec", "clean", "ub", "cut", "ovf",
-                 "obs", "types", "crashed", "plain", "res", "bypos", "defs", "vtypes", "byline", "dirty")
+                 "obs", "types", "crashed", "plain", "res", "bypos", "defs", "vtypes", "byline", "dirty", "cond_tops")
 
 
 class Batch:
@@ -711,6 +723,7 @@ class Batch:
             r = FnResult()
             r.fn, r.index, r.occs = fn, i, pr.occs
             r.defs, r.vtypes = pr.defs, pr.vtypes
+            r.cond_tops = pr.cond_tops
             r.line0 = len(lines) + 1
             r.nlines = len(pr.plain)
             r.plain = pr.plain
